@@ -204,6 +204,15 @@ def stepSess (all : St) (s : Sess) : List String → Option (Sess × String)
     let now ← now.toInt?; let sink ← parseSink sink; let c ← s.cr
     let (o, c') := c.writeToSinkS C now sink
     some ({ s with cr := some c' }, showOut o)
+  | ["stunnelsink", j] => do
+    -- tunnel copy into a conn whose transport refuses its j-th write: that `w.write` fails having delivered nothing
+    let j ← j.toNat?; let r ← s.sr
+    let (o, r') := r.writeToSink C (List.replicate (j - 1) ⟨1048576, false⟩ ++ [⟨0, true⟩])
+    some ({ s with sr := some r' }, showOut (match o with | .copied ps e => .copied (ps.filter (fun p => !p.isEmpty)) e | o => o))
+  | ["ctunnelsink", now, j] => do
+    let now ← now.toInt?; let j ← j.toNat?; let c ← s.cr
+    let (o, c') := c.writeToSinkS C now (List.replicate (j - 1) ⟨1048576, false⟩ ++ [⟨0, true⟩])
+    some ({ s with cr := some c' }, showOut (match o with | .copied ps e => .copied (ps.filter (fun p => !p.isEmpty)) e | o => o))
   | ["reqcheck"] => do
     let (a, u) ← s.req
     -- what the holder of the request sees now: the bytes the request was parsed from have been overwritten
